@@ -102,6 +102,9 @@ func vpC37Server(w vpC37Workload, root string) (*Server, chan struct{}) {
 				})
 			case p == "/timeout":
 				slow(ctx)
+			case p == "/sleepy":
+				time.Sleep(8 * time.Millisecond) // long enough for a pipelined call with a 3 ms deadline to give up while in flight
+				ctx.SetBody(ctx.PostBody())
 			case p == "/hijack":
 				ctx.Hijack(func(c net.Conn) {
 					c.Write([]byte("hijacked"))
@@ -221,7 +224,16 @@ func TestVP_C37_Stress(t *testing.T) {
 					case 1:
 						err = hc.DoDeadline(req, resp, time.Now().Add(time.Second))
 					case 2:
-						err = pc.DoTimeout(req, resp, time.Second)
+						if (g+i)%3 == 0 {
+							// a pipelined call that times out after its request was written (in flight), with a body
+							req.Header.SetMethod(MethodPost)
+							req.SetRequestURI("http://h/sleepy")
+							req.SetBodyString("pipelined body of a call that gives up early")
+							err = pc.DoTimeout(req, resp, 3*time.Millisecond)
+							req.SetBodyString("the caller reuses its request at once") // it owns req again
+						} else {
+							err = pc.DoTimeout(req, resp, time.Second)
+						}
 					case 3:
 						err = lb.DoTimeout(req, resp, time.Second)
 					default:
